@@ -4,8 +4,8 @@ from __future__ import annotations
 import ast
 from typing import Any, Dict, List, Optional
 
-from .fdvalues import (BoundExt, ClassVal, CoroVal, EnumVal, ExtVal, FuncVal, GatherVal, Obj, Opaque, PyRaise, StrT,
-                       strt_concat)
+from .fdvalues import (BoundExt, ClassVal, CoroVal, EnumVal, ExtVal, FuncVal, GatherVal, Obj, Opaque, PyRaise, Ready,
+                       StrT, strt_concat)
 from .report import Unsupported
 from .srcmodel import ClassDef, FuncDef, dotted, norm
 
@@ -79,6 +79,8 @@ class CallMixin:  # pylint:disable=too-many-public-methods
         if isinstance(func, BoundExt):
             return self.call_bound(func, args, kwargs, node, frame)
         if isinstance(func, Opaque):
+            if func.label.startswith("logger.") or func.kind == "logging.Logger":
+                return None
             if "opaque-call" in self.ext_handlers:
                 return self.ext_handlers["opaque-call"](self, func, args, kwargs)
             if self.opaque_calls:
@@ -93,7 +95,24 @@ class CallMixin:  # pylint:disable=too-many-public-methods
             v.awaited = True
             return self.run_function(v.func, v.args, v.kwargs, node)
         if isinstance(v, GatherVal):
-            return [self.await_(x, node, frame) if isinstance(x, (CoroVal, GatherVal)) else x for x in v.items]
+            order = self.gather_order(len(v.items)) if hasattr(self, "gather_order") else range(len(v.items))
+            res: Dict[int, Any] = {}
+            for i in order:
+                x = v.items[i]
+                if not isinstance(x, (CoroVal, GatherVal, Ready, Opaque)):
+                    self.raise_("TypeError", "An asyncio.Future, a coroutine or an awaitable is required")
+                # lemma L5: every coroutine passed to gather runs as its own task in a *copy* of the current context
+                saved = [(cv, cv.fields["value"]) for cv in self.ctxvars]
+                try:
+                    res[i] = self.await_(x, node, frame)
+                finally:
+                    for cv, val in saved:
+                        cv.fields["value"] = val
+            return [res[i] for i in range(len(v.items))]
+        if isinstance(v, Ready):
+            if v.exc is not None:
+                raise PyRaise(v.exc)
+            return v.value
         if isinstance(v, Opaque):
             key = (v.oid, "await")
             if key not in self.attr_memo:
@@ -141,6 +160,12 @@ class CallMixin:  # pylint:disable=too-many-public-methods
             typ = args[0] if args else kwargs.get("type") or kwargs.get("type_")
             value = args[1] if len(args) > 1 else kwargs.get("value")
             return Obj("lark.Token", {"type": typ, "value": value})
+        if name == "contextvars.ContextVar":
+            cv = Obj(name, {"name": args[0] if args else None, "value": kwargs.get("default", KeyError)})
+            self.ctxvars.append(cv)
+            return cv
+        if name in self.ext_handlers:
+            return self.ext_handlers[name](self, args, kwargs)
         if name == "builtins.str":
             return self.to_str(args[0], node, frame) if args else ""
         if name == "builtins.int":
@@ -230,6 +255,25 @@ class CallMixin:  # pylint:disable=too-many-public-methods
                     if key not in self.attr_memo:
                         self.attr_memo[key] = self.eval(ca, Frame(None, cls.module, None, set()))
                     return self.attr_memo[key]
+            if cls is not None and self.model.is_transformer(cls) and attr == "transform":
+                return BoundExt(v, "transform")
+            if v.cls == "re.Pattern" and attr in ("sub", "match", "fullmatch", "search", "findall"):
+                return BoundExt(v, attr)
+            if v.cls == "re.Match" and attr in ("group", "groupdict", "groups"):
+                return BoundExt(v, attr)
+            if v.cls == "builtins.super":
+                target = v.fields["self"]
+                tcls = self.class_of(target)
+                mro = self.class_mro(tcls) if tcls else []
+                after = v.fields["after"]
+                rest = mro[mro.index(after) + 1:] if after in mro else []
+                for cn in rest:
+                    c = self.model.classes.get(cn)
+                    if c is not None and attr in c.methods:
+                        return FuncVal(fn=c.methods[attr], self_obj=target, module=c.module)
+                return BoundExt(v, attr)  # an external base class: modelled as a no-op
+            if v.cls == "contextvars.ContextVar" and attr in ("get", "set", "reset"):
+                return BoundExt(v, attr)
             if v.cls in ("lark.Tree", "lark.Token") or self.is_subclass(v.cls, "builtins.BaseException"):
                 if attr in ("msg",) and self.is_subclass(v.cls, "builtins.SyntaxError"):
                     args = v.fields.get("args", ())
@@ -309,6 +353,20 @@ class CallMixin:  # pylint:disable=too-many-public-methods
     # ------------------------------------------------------------------ bound externals (str/list/dict methods ...)
     def call_bound(self, b: BoundExt, args: List[Any], kwargs: Dict[str, Any], node, frame) -> Any:  # noqa: C901
         r, a = b.recv, b.attr
+        if a == "__getitem__" and isinstance(r, (list, tuple, dict, str)) and len(args) == 1:
+            if isinstance(r, dict):
+                for k, v in r.items():
+                    if self.eq(k, args[0]):
+                        return v
+                raise PyRaise(self.exc("builtins.KeyError", args[0]))
+            try:
+                return r[args[0]]
+            except (IndexError, TypeError):
+                self.raise_("IndexError", "index out of range")
+        if a == "__contains__" and isinstance(r, (list, tuple, dict, set, str)) and len(args) == 1:
+            return self.contains(r, args[0], node, frame)
+        if a == "__len__" and isinstance(r, (list, tuple, dict, set, str)):
+            return len(r)
         if isinstance(r, str):
             if all(isinstance(x, (str, int, tuple)) or x is None for x in args) and not kwargs:
                 if a in ("upper", "lower", "strip", "lstrip", "rstrip", "startswith", "endswith", "replace", "split",
@@ -423,12 +481,126 @@ class CallMixin:  # pylint:disable=too-many-public-methods
                 return None
         if isinstance(r, Obj) and r.cls in ("lark.Tree",):
             return self.tree_method(r, a, args, kwargs, node, frame)
+        if isinstance(r, Obj) and r.cls == "builtins.super":
+            return None
+        if isinstance(r, Obj) and r.cls == "re.Pattern":
+            import re as _re
+            pat, flags = r.fields["pattern"], r.fields.get("flags") or 0
+            if not isinstance(pat, str) or not isinstance(flags, int):
+                raise Unsupported("regex pattern is not a literal")
+            rx = _re.compile(pat, flags)
+            if a == "sub":
+                repl, text = args[0], args[1]
+                if isinstance(text, str) and isinstance(repl, str):
+                    return rx.sub(repl, text)  # folding of a pure library function on literals
+                if isinstance(text, StrT) and isinstance(repl, str):
+                    # only literal chunks can be rewritten; holes are kept (sound for patterns without '.'-like atoms
+                    # spanning a hole: the rule using templates checks the pattern's language separately)
+                    return StrT(tuple(rx.sub(repl, p_) if isinstance(p_, str) else p_ for p_ in text.parts))
+                raise Unsupported(f"re.sub on {text!r}")
+            if a in ("match", "fullmatch", "search"):
+                text = args[0]
+                if isinstance(text, Obj) and text.cls == "lark.Token":
+                    text = text.fields.get("value")
+                if not isinstance(text, str):
+                    raise Unsupported(f"re.{a} on {text!r}")
+                mt = getattr(rx, a)(text)
+                return None if mt is None else Obj("re.Match", {"m": mt})
+            if a == "findall" and isinstance(args[0], str):
+                return rx.findall(args[0])
+        if isinstance(r, Obj) and r.cls == "re.Match":
+            mt = r.fields["m"]
+            if a == "group":
+                return mt.group(*args)
+            if a == "groupdict":
+                return dict(mt.groupdict())
+            if a == "groups":
+                return tuple(mt.groups())
+        if isinstance(r, Obj) and r.cls == "contextvars.ContextVar":
+            if a == "get":
+                if r.fields["value"] is KeyError:
+                    if args:
+                        return args[0]
+                    self.raise_("LookupError", "context variable has no value")
+                return r.fields["value"]
+            if a == "set":
+                self.effects.append(("ctxvar.set", (r.fields.get("name"), args[0])))
+                old = r.fields["value"]
+                r.fields["value"] = args[0]
+                return Obj("contextvars.Token", {"var": r, "old": old})
+            if a == "reset":
+                r.fields["value"] = args[0].fields["old"]
+                return None
+        if isinstance(r, Obj) and a == "transform" and r.cls in self.model.classes:
+            return self.lark_transform(r, args[0], node, frame)
         if isinstance(r, FuncVal) and a == "cache_info":
             return Opaque("cache_info")
         if isinstance(r, Obj) and a == "with_traceback":
             return r
         self.unsupported(node, frame, f"method {a} of {type(r).__name__}")
         return None
+
+    # ------------------------------------------------------------------ lark.Transformer.transform (lemma L3)
+    def _is_inline(self, cls: ClassDef, name: str) -> bool:
+        def has_inline(decos) -> bool:
+            for d in decos:
+                if isinstance(d, ast.Call) and (dotted(d.func) or "").endswith("v_args"):
+                    for kw in d.keywords:
+                        if kw.arg == "inline" and isinstance(kw.value, ast.Constant) and kw.value.value is True:
+                            return True
+            return False
+
+        for cn in self.model.mro(cls.qualname):
+            c = self.model.classes.get(cn)
+            if c is None:
+                continue
+            if has_inline(c.node.decorator_list):
+                return True
+            if name in c.methods:
+                return has_inline(c.methods[name].node.decorator_list)
+        return False
+
+    def lark_transform(self, tobj: Obj, tree: Any, node, frame) -> Any:
+        cls = self.model.classes[tobj.cls]
+
+        def visit_error(data, exc: Obj):
+            if self.is_subclass(exc.cls, "builtins.Exception") and not self.is_subclass(exc.cls, "lark.exceptions.GrammarError"):
+                return PyRaise(Obj("lark.exceptions.VisitError", {"args": (data,), "orig_exc": exc, "rule": data}))
+            return PyRaise(exc)
+
+        def visit(t: Any) -> Any:
+            if isinstance(t, Obj) and t.cls == "lark.Tree":
+                children = []
+                for c in t.fields.get("children") or []:
+                    children.append(visit(c))
+                data = t.fields.get("data")
+                name = data.fields.get("value") if isinstance(data, Obj) and data.cls == "lark.Token" else data
+                if not isinstance(name, str):
+                    raise Unsupported(f"tree node name {data!r}")
+                m = self.model.find_method(cls, name)
+                if m is None:
+                    return Obj("lark.Tree", {"data": data, "children": children})
+                fv = FuncVal(fn=m, self_obj=tobj, module=m.module)
+                try:
+                    if self._is_inline(cls, name):
+                        return self.call(fv, children, {}, node, frame)
+                    return self.call(fv, [children], {}, node, frame)
+                except PyRaise as err:
+                    raise visit_error(name, err.exc) from None
+            if isinstance(t, Obj) and t.cls == "lark.Token":
+                typ = t.fields.get("type")
+                m = self.model.find_method(cls, typ) if isinstance(typ, str) else None
+                if m is None:
+                    return t
+                try:
+                    return self.call(FuncVal(fn=m, self_obj=tobj, module=m.module), [t], {}, node, frame)
+                except PyRaise as err:
+                    raise visit_error(typ, err.exc) from None
+            return t
+
+        if not (isinstance(tree, Obj) and tree.cls == "lark.Tree"):
+            raise Unsupported(f"transform of non-tree {tree!r}")
+        return visit(tree)
 
     def sorted_(self, items: List[Any], key: Any, reverse: bool, node, frame) -> List[Any]:
         def k(x):
@@ -548,7 +720,9 @@ class CallMixin:  # pylint:disable=too-many-public-methods
         if short == "id":
             return Opaque("id()")
         if short == "super":
-            return Opaque("super()", truthy=True)
+            if frame is None or frame.fn is None or frame.fn.cls is None or not frame.fn.params:
+                raise Unsupported("super() outside a method")
+            return Obj("builtins.super", {"self": frame.vars.get(frame.fn.params[0]), "after": frame.fn.cls.qualname})
         if short == "iter":
             return self.iterate(args[0], node, frame)
         if short == "next":
